@@ -260,6 +260,23 @@ def c11(ctx):
     for i in [0, 1, 579, 580, 581, 2**32, 2**64 - 1]: L.append("get frame %d" % i)
     for i in [0, 50, 51, 52, 2**64 - 1]: L.append("get point 0 %d" % i); L.append("get chan 0 0 %d" % i)
     _run_scripts(ctx, [(L, {}, "vicon")], "get-file", None)
+    # containers filled by the reader: byte-typed parameters, padded strings, sparse groups - every typed getter on every parameter
+    from . import c3dgen
+    def onef(i):
+        wd = run.workdir(); pth = os.path.join(wd, "in.c3d")
+        desc, _ = c3dgen.make_file(ctx.seed * 17 + i, pth)
+        S = ["dumpmode full", "load %s" % pth]
+        for g in range(0, 42):
+            for pi in range(0, 8):
+                for ty in "BIFC": S.append("get vals %d %d %s" % (g, pi, ty))
+            S.append("get group %d" % g)
+        res = run.run_pair(S, ctx.exe("asan"), wd=wd)
+        fails = oracles.c11(res)
+        run.cleanup(wd)
+        return desc, S, res, fails
+    for desc, S, res, fails in core.pmap(onef, range(12 if ctx.quick else 300)):
+        ctx.record_pair(res, ["# generated file %s" % desc] + S[:2] + ["# ... get vals <g> <p> <B|I|F|C> for g < 42, p < 8"], "get-loaded")
+        for clause, where, detail in fails: ctx.fail(clause, where, detail, ["# generated file (c3dgen seed %s)" % desc] + S)
     ctx.exhaustive = True
     if ctx.failures: _shrink_failures(ctx, oracles.c11, budget=1)
     return core.finish(ctx, "complete grid: container sizes x indices {0..size-1,size,size+1,2^32,2^64-1} x names {present, absent, case variant, space padded, empty} "
@@ -849,6 +866,40 @@ def c16(ctx):
         # random garbage and zero files
     if ctx.quick and len(mutants) > 6000:
         keep = set(r.sample(range(len(mutants)), 6000)); mutants = [m for i, m in enumerate(mutants) if i in keep]
+    # dimension blasts: every record's dimension bytes set to 0xFF (all / all but the first / first 0 and the rest 0xFF)
+    import struct as _st
+    for tag, path in bases:
+        b = open(path, "rb").read()
+        try:
+            z = 0
+            while b[z] == 0: z += 1
+            p_ = z + 512 * (b[z] - 1) + 4
+            for _ in range(400):
+                n_ = _st.unpack_from("b", b, p_)[0]
+                if n_ == 0: break
+                gid = _st.unpack_from("b", b, p_ + 1)[0]
+                o = p_ + 2 + abs(n_); off = _st.unpack_from("<H", b, o)[0]
+                if gid > 0:
+                    q = o + 2; nd = b[q + 1]
+                    if nd >= 2:
+                        for mode in ("all", "tail", "zero-first"):
+                            bb = bytearray(b)
+                            for j in range(nd): bb[q + 2 + j] = 0xFF
+                            if mode == "tail": bb[q + 2] = b[q + 2]
+                            if mode == "zero-first": bb[q + 2] = 0
+                            mutants.append(("%s-dimblast-%s-%d" % (tag, mode, q), bytes(bb)))
+                    # scalar turned into an empty / wrong-typed parameter with a consistent record
+                    if nd == 0 and off >= 5:
+                        ty = _st.unpack_from("b", b, q)[0]; w = abs(ty)
+                        bb = bytearray(b[:q + 1] + bytes([1, 0]) + b[q + 2 + w:])      # dims [0], no data
+                        bb[o:o + 2] = _st.pack("<H", off - w + 1)
+                        mutants.append(("%s-emptied-%d" % (tag, q), bytes(bb)))
+                        if w in (2, 4):
+                            bb = bytearray(b); bb[q] = 4 if w == 2 else 2
+                            mutants.append(("%s-retyped-%d" % (tag, q), bytes(bb)))
+                if off == 0: break
+                p_ = o + off
+        except Exception: pass
     # announced counts far beyond the file size (the cost finding): FRAMES = 32767 and USED = 255 in the library-saved file
     for tag, path in bases[:1]:
         b = bytearray(open(path, "rb").read())
@@ -1036,13 +1087,15 @@ def c14(ctx):
         if len(ctx.samples) < 2: ctx.sample("[save] " + " ; ".join(l[:70] for l in lines[:8]) + " ; ... ; save a1 ; save a2 ; load a1 ; save b1 ; save b2   (run twice: malloc fill 0xA5 and 0x5A)")
         for c, w, dt in fails: ctx.fail(c, w, dt, lines)
     # loaded files (events, reserved words, byte-typed values) saved under both fills
+    plain_exe = ctx.exe("plain")
     def onef(i):
         outs = {}
-        for fill in (0xA5, 0x5A):
+        for fill in (0xA5, 0x5A, 0x11):
             wd = run.workdir(); p = os.path.join(wd, "in.c3d")
             desc, _ = c3dgen.make_file(ctx.seed * 31 + i, p)
             S = ["dumpmode shape", "load %s" % p, "save @W@/o.c3d", "save @W@/o2.c3d"]
-            res = run.run_pair(S, exe, wd=wd, fill=fill)
+            # third run: the uninstrumented build (other stack/heap layout): equal objects in different processes
+            res = run.run_pair(S, exe if fill != 0x11 else plain_exe, wd=wd, fill=fill)
             try: outs[fill] = (open(os.path.join(wd, "o.c3d"), "rb").read(), open(os.path.join(wd, "o2.c3d"), "rb").read())
             except Exception: outs[fill] = (None, None)
             run.cleanup(wd)
@@ -1050,12 +1103,20 @@ def c14(ctx):
     for i, desc, S, res, outs in core.pmap(onef, range(40 if q else 1000)):
         ctx.record_pair(res, ["# generated file seed %d (%s)" % (ctx.seed * 31 + i, desc)] + S, "save-loaded")
         a, b = outs[0xA5], outs[0x5A]
+        c = outs[0x11]
+        if a[0] is not None and c[0] is not None and a[0] != c[0]:
+            j = next((k for k, (x, y) in enumerate(zip(a[0], c[0])) if x != y), -1)
+            ctx.fail("undefined_bytes", {"file": "loaded", "between": "instrumented/uninstrumented process"}, "the same loaded object saved by two differently built processes differs at byte %d (%02x vs %02x): that byte is not determined by the object's content" % (j, a[0][j] if j >= 0 else 0, c[0][j] if j >= 0 else 0), ["# generated file seed %d (c3dgen.make_file)" % (ctx.seed * 31 + i)] + S)
         if a[0] is not None and (a[0] != a[1] or a[0] != b[0]):
             ctx.fail("undefined_bytes" if a[0] != b[0] else "repeat_differs", {"file": "loaded-" + desc}, "saves of a loaded object differ between runs or repetitions", ["# generated file seed %d" % (ctx.seed * 31 + i)] + S)
     # memcheck: definedness of every buffer handed to write(2)
     vg = 0
     plain = ctx.exe("plain")
     vscripts = [mk(1000 + i)[0] for i in range(3 if q else 40)] + [["dumpmode none", "load /repo/test/c3dFiles/Qualisys.c3d", "save @W@/q.c3d"]] + [["new", "save @W@/n.c3d"]]
+    gdir = run.workdir()
+    for i in range(3 if q else 40):
+        gp = os.path.join(gdir, "g%d.c3d" % i); c3dgen.make_file(ctx.seed * 41 + i, gp)
+        vscripts.append(["dumpmode none", "load %s" % gp, "save @W@/o.c3d", "load @W@/o.c3d", "save @W@/o2.c3d"])
     def onev(lines):
         wd = run.workdir(); sp = os.path.join(wd, "s.txt"); open(sp, "w").write("\n".join(lines).replace("@W@", wd) + "\n")
         r = subprocess.run(["valgrind", "--quiet", "--error-exitcode=9", "--track-origins=no", plain, sp, os.path.join(wd, "s.h")], stdout=subprocess.PIPE, stderr=subprocess.PIPE, text=True, timeout=900)
@@ -1068,6 +1129,7 @@ def c14(ctx):
             what = [l for l in err.split("\n") if "uninitialised" in l or "Invalid" in l][:2]
             ctx.fail("memcheck", {"kind": "write-uninitialised" if "write(buf)" in err else "other"}, "valgrind memcheck: " + " | ".join(what), lines)
     ctx.count("valgrind_runs", vg)
+    run.cleanup(gdir)
     return core.finish(ctx, "saves of API-built and of loaded objects: library bytes == model bytes (the model's writer is a function of the object only); object dump before == after each save; "
                        "two saves of one object byte-identical; every script run in two processes whose allocator fills fresh memory with 0xA5 resp. 0x5A - any byte taken from uninitialised heap differs "
                        "between the two files; uninstrumented build under valgrind memcheck (definedness of every buffer passed to write(2)); distinct = (op, outcome, dump size)")
